@@ -320,6 +320,56 @@ def predicate (f : Callable) (fq : TyQ) (a1 : Option Arg) (n : Nat) : Bool :=
 
 end Spec
 
+/-! ### the overload set as written in the header (tie: `Tetl.C15.GenInvoke.overloads` is extracted by gen/c15_invoke.py) -/
+
+/-- expression of a trailing return type -/
+inductive IEx where
+  | name (x : String)                              -- a parameter by its name: an lvalue
+  | fwd (ty x : String)                            -- `etl::forward<ty>(x)`
+  | packFwd (ty x : String)                        -- `etl::forward<ty>(x)...`
+  | get (e : IEx)                                  -- `invoke_impl::get(e)`
+  | deref (e : IEx)                                -- `*e`
+  | dotGet (e : IEx)                               -- `e.get()`
+  | memCall (obj : IEx) (pm : String) (args : IEx) -- `(obj.*pm)(args)`
+  | memAcc (obj : IEx) (pm : String)               -- `obj.*pm`
+  | call (f : IEx) (args : IEx)                    -- `f(args)`
+  | implCall (ty : String) (f : IEx) (args : IEx)  -- `invoke_impl<ty>::call(f, args)`
+  | tyRref (ty : String)                           -- the type `ty&&` (no decltype)
+  | opaque (s : String)                            -- not understood by the extractor
+  deriving Repr, DecidableEq, Inhabited
+
+structure Overload where
+  owner : String
+  name : String
+  req : String                                     -- requires-clause (tokens separated by blanks)
+  params : List String
+  ret : IEx
+  deriving Repr, DecidableEq, Inhabited
+
+/-- the overload set that `Model` transcribes: what the header must say.  `get`: `T&&` for a class derived from `B`,
+    `t.get()` for a reference_wrapper, `*etl::forward<T>(t)` otherwise; `call`: the object expression is
+    `get(etl::forward<T>(t))` in both member overloads, everything else is forwarded to `f(args...)`. -/
+def expectedOverloads : List Overload := [
+  ⟨"invoke_impl<T>", "call", "", ["F && f", "Args && ... args"], .call (.fwd "F" "f") (.packFwd "Args" "args")⟩,
+  ⟨"invoke_impl<MT B :: *>", "get", "is_base_of_v < B , Td >", ["T && t"], .tyRref "T"⟩,
+  ⟨"invoke_impl<MT B :: *>", "get", "is_reference_wrapper < Td > :: value", ["T && t"], .dotGet (.name "t")⟩,
+  ⟨"invoke_impl<MT B :: *>", "get", "( ! is_base_of_v < B , Td > and ! is_reference_wrapper < Td > :: value )", ["T && t"],
+    .deref (.fwd "T" "t")⟩,
+  ⟨"invoke_impl<MT B :: *>", "call", "is_function_v < MT1 >", ["MT1 B :: * pmf", "T && t", "Args && ... args"],
+    .memCall (.get (.fwd "T" "t")) "pmf" (.packFwd "Args" "args")⟩,
+  ⟨"invoke_impl<MT B :: *>", "call", "", ["MT B :: * pmd", "T && t"], .memAcc (.get (.fwd "T" "t")) "pmd"⟩,
+  ⟨"detail", "INVOKE", "", ["F && f", "Args && ... args"], .implCall "Fd" (.fwd "F" "f") (.packFwd "Args" "args")⟩]
+
+/-- how an overload set writes the argument of `get` in the member-function `call` (the parameter `e` of
+    `Model.invokeWith`): `none` when it is written in a way the model has no reading for -/
+def argExprOf (ovs : List Overload) : Option Model.ArgExpr :=
+  match ovs.find? (fun o => o.name == "call" && o.params.length == 3) with
+  | some ⟨_, _, _, [_, p, _], .memCall (.get (.fwd ty x)) _ _⟩ =>
+    if p == ty ++ " && " ++ x then some .forwarded else none
+  | some ⟨_, _, _, [_, p, _], .memCall (.get (.name x)) _ _⟩ =>
+    if p.endsWith (" && " ++ x) then some .named else none
+  | _ => none
+
 /-! ### the named zoo of harness/c15.cpp (`namespace inv`) -/
 
 def q0 : MemQ := ⟨false, false, .none⟩
